@@ -2,6 +2,9 @@
 # regenerate coq/gen/Consts.v from /repo; rewrite only when the content changed; rebuild coq/gen
 set -e
 V=/verif
+mkdir -p $V/build
+exec 9>$V/build/.genconsts.lock
+flock 9
 export GOFLAGS=-mod=mod GOPROXY=off GOSUMDB=off GOTOOLCHAIN=local
 mkdir -p $V/build
 if [ ! -x $V/build/genconsts ] || [ $V/tools/genconsts/main.go -nt $V/build/genconsts ]; then
